@@ -38,6 +38,6 @@ Definition run_buf (cap : nat) (s : list N) : list (event * span) * pend :=
   let '(toks, se) := scan_all (buf_ops cap) F (4 * F + 20) (init_sc {| b_buf := []; b_rest := s |}) [] in
   let p := {| p_toks := toks; p_token := None; p_states := []; p_state := SStreamStart;
               p_anchors := []; p_anchor_id := 1%N; p_tags := []; p_keep_tags := false |} in
-  parse_all (4 * F + 20) p se [].
+  parse_all (4 * (4 * F + 20) + 40) p se [].
 Definition run_buf16 := run_buf 16.
 Definition run_buf8 := run_buf 8.
